@@ -26,8 +26,13 @@ def run(ctx):
             n = len(s["case"]["edges"]); dl = s["case"]["D"] * s["routing"]["L"]
             j = rng.randrange((dl + dl % 2) // 2)
             s["xs"] = list(s["xs"]); s["xs"][2 * n - 1 + 2 * j] = rng.choice([0.0, 0.0, 2.0 ** -1074]); s["kind"] = "zero_radial"
-        s["xs_long"] = s["xs"] + [rng.random() for _ in range(3)]
+        # coordinates beyond get_dimension() are ignored, whatever they are (NaN, out of range, ...)
+        s["xs_long"] = s["xs"] + [rng.choice([rng.random(), float("nan"), 2.5, -1.0, float("inf")]) for _ in range(3)]
         s["req"] = S.sample_request(s["case"], s["routing"], s["table"], s["xs_long"], debug=False, meta=True)
+        if k % 5 == 2:
+            # surplus trailing entries in edge_data (more entries than edges) are ignored as well
+            s["req"]["edge_data"] = s["req"]["edge_data"] + [[None, [f2b(0.5)] * s["case"]["D"]], [f2b(1.0), [f2b(-1.0)] * s["case"]["D"]]]
+            s["kind"] = (s.get("kind") or "") + "+surplus_edge_data"
     S.run(ss)
     SC.corr_sample(ctx, ss, fields=("k", "u", "v", "jac"))
     treqs = [dict(s["req"], op="sample_track") for s in ss]
